@@ -1,12 +1,19 @@
 """C08 — JSON serialisation round-trips without loss.
 
-(T) Gen/C08_tables.v regenerated from expressions.py (dataclass fields), enumerations.py, models.py, encoders.py
-(C) model enc_min / decode / reload (links, docstring cleaning, enum fields)  vs  as_json / Module.from_json on
-    live trees (generated packages, both agents, namespace / builtin modules, hand-built trees, single expressions),
-    model enc_full vs as_json(full=True), model decode vs json_decoder on damaged documents
-(O) model clean  vs  inspect.cleandoc(s.rstrip())
+(T) Gen/C08_tables.v regenerated from expressions.py (dataclass fields), enumerations.py, models.py, encoders.py;
+    Gen/C08_text_tables.v from CPython's json / str (string escapes, white space, str.isspace on Latin-1) and from
+    mixins.py / models.py / cli.py (json.dumps keywords of as_json and of cli.dump, the full-only keys of as_dict)
+(C) model enc_min / decode / reload (links, docstring cleaning, enum fields)  vs  as_json / from_json on live trees
+    (generated packages incl. alias chains and wildcard placeholders, both agents, namespace / builtin modules, hand-built
+    trees, sub-objects as roots, single expressions), as JSON values and as exact text (dumps);
+    model enc_fullD (derived values computed from the base fields and the working directory) vs as_json(full=True) from
+    several working directories; the full form of the tree reloaded from the minimal form; model decode vs json_decoder
+    on documents damaged at the dict level, loads+decode vs json.loads(object_hook) on documents damaged at the character
+    level; dumps / loads vs json.dumps / json.loads on random values and texts; dumps_cli vs the text `griffe dump` prints
+(O) model clean  vs  inspect.cleandoc(s.rstrip()); model pure paths vs pathlib.PurePosixPath
 direct: as_json succeeds and is JSON; from_json succeeds; the re-encoding is the identical text; field-by-field
-    equivalence; names resolve to the same canonical paths; `griffe dump` prints {package: as_dict}.
+    equivalence; names resolve to the same canonical paths; `griffe dump` (subprocess, griffe.main, griffe.dump) prints
+    {package: as_dict} for every designation of the package, and what is loaded back from its output has the same outline.
 """
 from __future__ import annotations
 
@@ -23,38 +30,63 @@ from harness.translate import c08_tables
 
 ID = "C08"
 LEVEL_TEXT = ("Theorems over all trees (modules, classes, functions, attributes, aliases, decorators, docstrings, parameters, expression dataclasses "
-              "of the regenerated table at any depth), minimal mode: every tree satisfying the representation invariant `rep` - with or without "
-              "line numbers, regular / namespace / builtin file paths, any member names - decodes to exactly `reload t`, an explicit function "
-              "(C08_decode_enc_min); `reload t` re-encodes to the identical JSON unless a docstring is not a fixpoint of cleandoc "
-              "(C08_reencode_identical, C08_roundtrip_min), agrees with t on every serialised field up to parent links (C08_equiv_fields), and is t "
-              "itself when no expression gap is present (C08_names_resolve_modulo_known). Full mode, for any derived values F that decode: a "
-              "full document decodes to the same `reload t` and, with the same F, re-encodes identically (C08_full_decode, C08_roundtrip_full). Computed `_refuted` witnesses for the remaining findings "
-              "(F4, F6, F8-F11), each replayed on the implementation; C08_fixed_witnesses: the witnesses of the repaired defects round-trip to "
-              "themselves; an Example tree with every node kind satisfies all hypotheses. The expression class table, enum values, constructor "
-              "signatures and the shape of json_decoder's two tests are regenerated from the sources on every run; the model is tied to the code by "
-              "differential runs on generated packages (visit with/without resolved aliases, forced inspection), namespace and builtin modules, "
-              "hand-built trees, 1500+ expressions, damaged documents, and `griffe dump` invocations, in both modes.")
-LEVEL_NOTE = ("Trusted: Coq kernel, extraction, translator harness/translate/c08_tables.py, the abstraction live object -> model tree in this module, "
-              "json.dumps/json.loads themselves (the model starts at the dict level; first binding wins in the model, documents never repeat a key). "
-              "Full mode: the derived values (paths relative to cwd/package, parsed docstring sections) are parameters of the model read from the "
-              "live objects; that the implementation re-derives them identically after a reload is checked on every tree, not proved; docstring "
-              "parser and options are not serialised, so a full dump made with a parser re-derives plain text sections. "
-              "Name *resolution* is C04's subject: the theorems carry every name's parent link, equality of canonical paths before/after is checked "
-              "on the implementation per name occurrence. Fields that are never serialised (imports, exports, runtime, public, deprecated, extra, "
-              "overloads, property setters/deleters) are outside the statement. Documents whose root is not a module, non-ASCII strings, set_member "
-              "name clashes and ill-typed expression fields are outside the model (EUnmodelled).")
+              "of the regenerated table at any depth; strings are sequences of code points below 256). Minimal mode: every tree satisfying the "
+              "representation invariant `rep` - with or without line numbers, regular / namespace / builtin file paths, any member names - decodes to "
+              "exactly `reload t`, an explicit function (C08_decode_enc_min); `reload t` re-encodes to the identical JSON unless a docstring is not a "
+              "fixpoint of cleandoc (C08_reencode_identical, C08_roundtrip_min), agrees with t on every serialised field up to parent links "
+              "(C08_equiv_fields), and is t itself when no name has a foreign parent (C08_names_resolve_modulo_known; after the repairs of the loader "
+              "the gap needs a parent that is neither the scope, the preceding name of a dotted chain, nor \"str\": C08_fixed_links, "
+              "C08_refuted_links_other). Full mode with the derived values COMPUTED by the model from the serialised base fields and the working "
+              "directory (path, filepath, relative_filepath, relative_package_filepath via a model of PurePosixPath.relative_to/parent, parsed = one "
+              "text section): the full document decodes to the same `reload t` (C08_full_decode_derived), the reloaded tree gives the identical full "
+              "document from the same place (C08_full_derived_stable, C08_roundtrip_full_derived), and the tree reloaded from the MINIMAL document has "
+              "the full document of the original (C08_full_from_minimal); for trees with a docstring parser the older theorems with the derived "
+              "values as parameters remain (C08_full_decode, C08_roundtrip_full). Text level: dumps = json.dumps (default separators, ensure_ascii), "
+              "loads = json.loads as a recursive-descent reader; loads (dumps j) = j for every JSON term (C08_loads_dumps), hence Module.from_json "
+              "(as_json t) at the level of texts in both modes (C08_text_decode_min/_full, C08_text_roundtrip_min/_full); the command line's format "
+              "(indent=2, sort_keys, newline) reads back as the key-sorted document (C08_loads_dumps_cli); json.loads with the object hook called "
+              "while reading equals the decoding of the printed document, errors included (C08_loads_hook_dumps, C08_hook_decode); the expression "
+              "gap is characterised without the loader: an expression comes back unchanged iff its links are canonical (C08_links_exact, "
+              "C08_gap_expr_exact, C08_names_resolve_canonical). The model's string escapes, JSON white "
+              "space, str.isspace on Latin-1 and the full-only keys are proved equal to tables regenerated from CPython / models.py on every run "
+              "(C08_text_tables_agree). Computed `_refuted` witnesses for the remaining findings (F4, F6, F11, F13), each replayed on the "
+              "implementation; the witnesses of the repaired defects round-trip (C08_fixed_witnesses, C08_fixed_links). Ties: differential runs on "
+              "generated packages (visit with/without resolved aliases incl. alias chains, paths through aliases, cycles, unexpandable wildcard "
+              "placeholders; forced inspection), namespace packages (one and two portions, every working directory), builtin modules, hand-built "
+              "trees, objects other than a package as the root of a dump, trees with a docstring parser, 1500+ expressions, documents damaged at the "
+              "dict level and at the character level, JSON texts, pure paths, and `griffe dump` as a subprocess and through griffe.main / griffe.dump "
+              "in process, compared as JSON values AND as exact text with the model's printers, in both modes.")
+LEVEL_NOTE = ("Trusted: Coq kernel, extraction, translator harness/translate/c08_tables.py, the abstraction live object -> model tree in this module "
+              "(incl. Path.cwd().parts and str(Path) as the model's path strings: pathlib's normalisation is assumed idempotent; `//` roots and "
+              "Windows paths are outside), first-binding-wins dict lookup (documents never repeat a key). json.loads calls the object hook while it "
+              "reads: modelled (loads_hook, C08_loads_hook_dumps) and compared on character-damaged documents incl. which error comes first; "
+              "texts in which a damaged brace repeats a key inside one object are skipped (Python keeps the last value). Floats, "
+              "NaN/Infinity and \\u escapes above U+00FF are outside the text model (reported as unmodelled, never as a value); strings with code "
+              "points above U+00FF are outside the tree model (such trees get the direct checks only). A docstring parser and its options are not "
+              "serialised, so a full dump made with a parser re-derives plain text sections: for such trees the full form is checked up to decoding. "
+              "Alias.as_json is a proxy for the target's as_json: aliases are not used as roots of a dump. A class that is the ROOT of a document has "
+              "its own decorators and bases attached to itself by _load_class (not modelled; links blanked in the comparison). sort_keys on the "
+              "command line reorders members alphabetically: the tree reloaded from `griffe dump` output is compared as an outline (paths, kinds, "
+              "alias targets), not in member order. Name *resolution* is C04's subject: the theorems carry every name's parent link, equality of "
+              "canonical paths before/after is checked on the implementation per name occurrence. Fields that are never serialised (imports, "
+              "exports, runtime, public, deprecated, extra, overloads, property setters/deleters) are outside the statement. set_member name clashes "
+              "and ill-typed expression fields are outside the model (EUnmodelled).")
 MODEL = ("Model.C08_run", "run_C08")
 MODEL_TARGETS = ["Model/C08_run.vo"]
-COQ_TARGETS = ["Proofs/C08_json.vo", "Proofs/C08_full.vo", "Proofs/C08_text.vo"]
-RULE = ("seeded random packages (imports incl. wildcard and TYPE_CHECKING, __all__, attributes with annotations/values/docstrings, functions with every "
-        "parameter kind, annotations, defaults, decorators, overloads, properties, classes with bases/decorators/nested classes/__init__ attributes, "
-        "docstring shapes incl. non-idempotent ones, members named kind/cls) loaded by visit with and without resolve_aliases and by forced inspection; "
-        "namespace packages; builtin modules; hand-built trees with every expression dataclass incl. those the builders never emit; expressions from a "
-        "grammar over all ast expression nodes wrapped in a one-function module; documents damaged by key deletion/renaming/value replacement. "
-        "non-trivial = the tree has at least one expression or docstring; distinct by canonical abstraction")
+COQ_TARGETS = ["Proofs/C08_json.vo", "Proofs/C08_full.vo", "Proofs/C08_text.vo", "Proofs/C08_text_tables.vo", "Proofs/C08_links.vo", "Proofs/C08_hook.vo"]
+RULE = ("seeded random packages (imports incl. wildcard and TYPE_CHECKING, re-export chains, imports through a module alias, a cyclic re-export, "
+        "an unresolvable import and a wildcard import from a distribution that is not on the search paths, __all__, attributes with "
+        "annotations/values/docstrings, functions with every parameter kind, annotations, defaults, decorators, overloads, properties, classes "
+        "with bases/decorators/nested classes/__init__ attributes, docstring shapes incl. non-idempotent ones and Latin-1 text with NEL / "
+        "no-break space, members named kind/cls) loaded by visit with and without resolve_aliases (implicit or exported only) and by forced "
+        "inspection (incl. annotation objects without a Python repr); the full form taken from five working directories; namespace packages; "
+        "builtin modules; hand-built trees with every expression dataclass incl. those the builders never emit; sub-objects as roots; trees with a "
+        "docstring parser; expressions from a grammar over all ast expression nodes wrapped in a one-function module; documents damaged by key "
+        "deletion/renaming/value replacement/chain-element replacement, and by character deletion/insertion; random JSON values and texts; random "
+        "pure paths. non-trivial = the tree has at least one expression or docstring; distinct by canonical abstraction")
 TRUSTED = ["translator harness/translate/c08_tables.py (whitelisted AST shapes; fails closed)"]
-ASSUMPTIONS = ["strings are ASCII (the model's str.rstrip/lstrip/expandtabs know ASCII whitespace only)",
-               "a dumped tree has a module at its root (as `griffe dump` and Module.from_json require)"]
+ASSUMPTIONS = ["strings are sequences of code points below 256 (the model's str.rstrip/lstrip know str.isspace on Latin-1; the table is regenerated)",
+               "file paths are POSIX paths already normalised by pathlib"]
 TRANSLATOR_NAME = "harness/translate/c08_tables.py"
 
 
@@ -152,7 +184,7 @@ def root_context(obj, cwd):
         prefix = _ascii(parent.path)
         try:
             mod = [abs_fpath(parent.module._filepath)]
-            pkg = [abs_fpath(obj.package._filepath)]
+            pkg = [abs_fpath(parent.package._filepath)]
         except ValueError:
             pkg, mod = [], []
     return [[_ascii(x) for x in Path(cwd).parts], pkg, mod, prefix]
@@ -252,7 +284,7 @@ def walk_exprs(obj):
     import griffe
     if isinstance(obj, griffe.Class):
         for i, b in enumerate(obj.bases):
-            yield f"bases[{i}]", b, False
+            yield f"bases[{i}]", b, True
         for i, d in enumerate(obj.decorators):
             yield f"decorators[{i}]", d.value, True
     elif isinstance(obj, griffe.Function):
@@ -264,7 +296,7 @@ def walk_exprs(obj):
         yield "returns", obj.returns, True
     elif isinstance(obj, griffe.Attribute):
         yield "value", obj.value, True
-        yield "annotation", obj.annotation, False
+        yield "annotation", obj.annotation, True
 
 
 def names_of(e, out, depth=0, top_attr=False):
@@ -330,15 +362,11 @@ def abs_slots(t):
     return []
 
 
-def link_finding(slot: str, attached: bool, depth: int, old: int, new: int, top_is_attr: bool) -> str:
-    """which known defect explains a parent link that the model says changes (old -> new)."""
-    if old in (3, 4):
-        return "C08-F11"                 # the parent was a str / a Function: never restorable from the document
-    if not attached:
-        return "C08-F9"                  # slot never re-attached (class bases, attribute annotations)
-    if old == 2 and new == 1 and top_is_attr:
-        return "C08-F10"                 # dotted name at the top of a slot: every part re-parented to the scope
-    return "C08-F8"                      # name below the first layer of the expression
+def link_finding(slot: str, attached: bool, depth: int, old: int, new: int, top_is_attr: bool):
+    """which known defect explains a parent link that the model says changes (old -> new): since the loader re-attaches
+    every name of every slot and re-links dotted chains and attributes of string literals, only a parent that was
+    some other object (a Function, for the values of attributes assigned in methods) cannot come back."""
+    return "C08-F11" if old == 4 else None
 
 
 def compare_objects(ctx, case, a, b, ta, tb, tm, path, mode_note, names=True):
@@ -541,8 +569,8 @@ ENC_FINDING = {"BuiltinModuleError": "C08-F4", "ValueError": "C08-F13"}
 
 
 def blank_links(t):
-    """an abstracted expression / slot list with every name's parent link erased (used for the decorators of a root class,
-    which _load_class attaches to the class itself until the class becomes a member of something)."""
+    """an abstracted expression / slot list with every name's parent link erased (used for the decorators and bases of a
+    root class, which _load_class attaches to the class itself until the class becomes a member of something)."""
     if isinstance(t, list) and t:
         if t[0] == "name":
             return ["name", t[1], 0]
@@ -554,12 +582,13 @@ def blank_root_class(t):
     if t is not None and t[0] == "obj" and t[7][0] == "class":
         t = list(t)
         x = list(t[7])
+        x[1] = blank_links(x[1])
         x[2] = blank_links(x[2])
         t[7] = x
     return t
 
 
-def pick_cwd(ctx, obj):
+def pick_cwd(ctx, obj, every=False):
     """working directories from which the full form is taken: above the package (relative paths), inside it, unrelated."""
     import griffe
     cands = [(os.getcwd(), "harness cwd (above)"), (str(ctx.scratch), "scratch root (above)"), ("/usr", "unrelated")]
@@ -569,15 +598,15 @@ def pick_cwd(ctx, obj):
     elif isinstance(fp, list) and fp:
         cands += [(str(fp[0]), "a namespace portion"), (str(fp[0].parent), "parent of a namespace portion")]
     cands = [c for c in cands if os.path.isdir(c[0])]
-    return ctx.rng.choice(cands)
+    return cands if every else [ctx.rng.choice(cands)]
 
 
-def check_tree(ctx, obj, case, modes=(False, True), stream="?", parser=False):
+def check_tree(ctx, obj, case, modes=(False, True), stream="?", parser=False, every_cwd=False):
     """All checks for one live tree (a loaded package, or any object of one: `parser` says that its docstrings carry a
     docstring parser, in which case the parsed sections of the full form are read from the live objects)."""
     import griffe
     ctx.observe("stream", stream)
-    is_root_module = isinstance(obj, griffe.Module)
+    is_root_module = isinstance(obj, griffe.Module) and obj.parent is None      # names can only resolve as before in a whole package
     load = type(obj).from_json
     if not obj.is_alias:
         alias_features(ctx, obj)
@@ -605,7 +634,9 @@ def check_tree(ctx, obj, case, modes=(False, True), stream="?", parser=False):
     g_doc = False
     if mres is not None:
         m_json, m_dec, flags, m_reload, m_text = norm_model(mres[0]), mres[1], mres[2], mres[3], mres[4]
-        rep, g_doc, g_expr, has_doc = flags
+        rep, g_doc, g_expr, has_doc, canonical = flags
+        if rep and bool(g_expr) == bool(canonical):
+            ctx.tie_failure("correspondence", "model: gap_expr t <> negb (canon_tree t) on a live tree (C08_gap_expr_exact)", {"flags": flags}, case)
         pg = py_gaps(ta) if ta[0] == "obj" else {"lineno": False, "filepath": False, "memberkey": False, "has_doc": False}
         ctx.observe("model_flags", f"rep={rep} doc={g_doc} expr={g_expr}")
         ctx.observe("tree_features", f"no-lineno={int(pg['lineno'])} filepath-not-str={int(pg['filepath'])} member-kind/cls={int(pg['memberkey'])} docstring={int(pg['has_doc'])}")
@@ -617,14 +648,14 @@ def check_tree(ctx, obj, case, modes=(False, True), stream="?", parser=False):
     home = os.getcwd()
     for full in modes:
         mode = "full" if full else "min"
-        cwd, label = pick_cwd(ctx, obj) if full else (home, "")
-        if full:
-            ctx.observe("full_cwd", label)
-        os.chdir(cwd)
-        try:
-            _check_tree_mode(ctx, obj, case, full, mode, cwd, ta, mres, flags, g_doc, load, is_root_module, parser)
-        finally:
-            os.chdir(home)
+        for cwd, label in (pick_cwd(ctx, obj, every_cwd) if full else [(home, "")]):
+            if full:
+                ctx.observe("full_cwd", label)
+            os.chdir(cwd)
+            try:
+                _check_tree_mode(ctx, obj, case, full, mode, cwd, ta, mres, flags, g_doc, load, is_root_module, parser)
+            finally:
+                os.chdir(home)
     return ta, flags
 
 
@@ -635,12 +666,13 @@ def _check_tree_mode(ctx, obj, case, full, mode, cwd, ta, mres, flags, g_doc, lo
     else:
         m_json = m_dec = m_reload = m_text = None
     derived = full and ta is not None and not parser       # the model computes the derived values itself
-    mf = None
+    mf = mf_full = None
     if full and ta is not None:
         mf = ctx.model([["fullD", root_context(obj, cwd), norm_abs(ta)] if derived else ["full", full_info(obj), norm_abs(ta)]])[0]
         if mf == ["bad-input"]:
             ctx.tie_failure("harness", "full-mode input rejected by the model's decoder", {}, case)
             mf = None
+        mf_full = mf if derived else None
     # (a) serialisation succeeds and is JSON
     try:
         j = obj.as_json(full=full)
@@ -689,7 +721,7 @@ def _check_tree_mode(ctx, obj, case, full, mode, cwd, ta, mres, flags, g_doc, lo
         pass
     if m_decoded is not None and tb is not None:
         got, want = norm_abs(tb), m_decoded[1]
-        if not is_root_module:
+        if obj.parent is not None:
             got, want = blank_root_class(got), blank_root_class(want)
         if got != want:
             ctx.tie_failure("correspondence", f"decoded tree (model) vs abstraction of from_json ({mode})", _first_diff(want, got), case)
@@ -709,15 +741,17 @@ def _check_tree_mode(ctx, obj, case, full, mode, cwd, ta, mres, flags, g_doc, lo
     if not full:
         m_again = m_decoded[2] if m_decoded is not None else None
         predicted = m_again is not None and norm_model(m_again) == py_json(j2)
-    elif derived and mf is not None:
-        m_again = mf[3] if mf[3][0] == "ok" else None
+        m_before, m_after = m_json, (norm_model(m_again) if m_again is not None else None)
+    else:
+        m_again = mf[3] if mf is not None and mf[3][0] == "ok" else None
         predicted = m_again is not None and m_again[2] == j2
-    else:       # parser trees: the parsed sections are not modelled; the minimal form of the reloaded tree is
-        m_again = None
-        predicted = m_decoded is not None and json_term_to_py(norm_model(m_decoded[2])) == json.loads(obj2.as_json())
+        m_before, m_after = (norm_model(mf_full[1]) if mf_full is not None and mf_full[0] == "ok" else None), (norm_model(mf_full[3][1]) if mf_full is not None and mf_full[0] == "ok" and mf_full[3][0] == "ok" else None)
     if j2 != j:
+        # attributed to the docstring finding only when the model changes the document at the same positions, from and to
+        # the same values (whatever else may be wrong with the tree under test)
+        same = g_doc and m_before is not None and m_after is not None and same_change(m_before, m_after, py_json(j), py_json(j2))
         ctx.property_failure(dict(case, mode=mode, step="re-encoding differs"), _first_diff(py_json(j), py_json(j2)),
-                             finding="C08-F6" if predicted and g_doc else None)
+                             finding="C08-F6" if same else None)
         ctx.observe("outcome", f"{mode}:reencoding-differs")
     else:
         ctx.observe("outcome", f"{mode}:identical")
@@ -731,7 +765,8 @@ def _check_tree_mode(ctx, obj, case, full, mode, cwd, ta, mres, flags, g_doc, lo
             ctx.property_failure(dict(case, mode="min->full", step="full form of the tree reloaded from the minimal form"), {"exception": exc_tag(e)})
             jx = None
         if jx is not None and jx != j:
-            pred = g_doc and derived and mf is not None and mf[3][0] == "ok" and mf[3][2] == jx
+            pred = g_doc and mf_full is not None and mf_full[0] == "ok" and mf_full[3][0] == "ok" \
+                and same_change(norm_model(mf_full[1]), norm_model(mf_full[3][1]), py_json(j), py_json(jx))
             ctx.property_failure(dict(case, mode="min->full", step="full form of the tree reloaded from the minimal form differs"),
                                  _first_diff(py_json(j), py_json(jx)), finding="C08-F6" if pred else None)
             ctx.observe("outcome", "min->full:differs")
@@ -746,6 +781,31 @@ def _check_tree_mode(ctx, obj, case, full, mode, cwd, ta, mres, flags, g_doc, lo
         if not full and m_decoded is not None and m_decoded[1] != m_reload:
             ctx.tie_failure("correspondence", "reload(model) differs from decode(enc_min) (model)", {}, case)
     compare_objects(ctx, dict(case, mode=mode), obj, obj2, ta, tb, tm, [obj.name], mode, names=is_root_module)
+
+
+def term_diffs(a, b, path="$", out=None):
+    """every position where two JSON terms differ, with both values: {path: (a-part, b-part)}."""
+    out = {} if out is None else out
+    if a == b:
+        return out
+    if isinstance(a, list) and isinstance(b, list) and a and b and a[0] == b[0] and a[0] in ("a", "o") and len(a[1]) == len(b[1]):
+        if a[0] == "o" and [k for k, _ in a[1]] != [k for k, _ in b[1]]:
+            out[path] = (_short(a), _short(b))
+            return out
+        for i, (x, y) in enumerate(zip(a[1], b[1])):
+            if a[0] == "o":
+                term_diffs(x[1], y[1], f"{path}.{x[0]}", out)
+            else:
+                term_diffs(x, y, f"{path}[{i}]", out)
+        return out
+    out[path] = (_short(a), _short(b))
+    return out
+
+
+def same_change(model_before, model_after, impl_before, impl_after) -> bool:
+    """the model reproduces the failure: it changes the document at the same positions, from and to the same values."""
+    d = term_diffs(impl_before, impl_after)
+    return bool(d) and d == term_diffs(model_before, model_after)
 
 
 def _first_text_diff(a: str, b: str):
@@ -784,7 +844,7 @@ def gen_expr(rng, depth=0, ctx_yield=False):
         k = rng.randrange(9)
         if k < 4:
             return rng.choice(LOCAL_NAMES)
-        return rng.choice(["1", "'s'", "None", "...", "b'x'", "1.5", "True", "\"q'q\"", "-1"])
+        return rng.choice(["1", "'s'", "None", "...", "b'x'", "1.5", "True", "\"q'q\"", "-1", "'\xe9t\xe9'", "'a\\tb\\x7f'"])
     e = lambda: gen_expr(rng, depth + 1)
     k = rng.randrange(27)
     if k == 0:
@@ -894,7 +954,8 @@ def gen_annotation(rng, depth=0):
     return f"typing.Union[{a()}, {a()}]"
 
 
-DOC_WORDS = ["Summary line.", "Returns:", "    value: text", "Args:", "  x: thing", "more text", "", "   ", "deep    indent", ":param x: y", "Note", "----"]
+DOC_WORDS = ["Summary line.", "Returns:", "    value: text", "Args:", "  x: thing", "more text", "", "   ", "deep    indent", ":param x: y", "Note", "----",
+             "caf\xe9 na\xefve", "\xa0 nbsp-indented", "tail \xa0", "  \xe9t\xe9 \x85"]       # Latin-1: letters, no-break space and NEL (both are str.isspace)
 
 
 def gen_docstring(rng, indent: str, fixpoint_only=False):
@@ -1061,7 +1122,7 @@ def gen_module_source(rng, pkg, is_init, with_findings=True):
             n = f"Klass{i}"
             out += gen_class(rng, "", n, with_findings=with_findings)
         else:
-            n = rng.choice(["kind", "cls"]) if with_findings and rng.random() < 0.1 else f"VAR{i}"
+            n = rng.choice(["kind", "cls"]) if with_findings and rng.random() < 0.1 else f"VAR{i}" if rng.random() < 0.85 else f"vari\xe9t\xe9{i}"
             out += gen_attribute(rng, "", n)
         names.append(n)
     if rng.random() < 0.5:
@@ -1126,7 +1187,7 @@ def write_package(ctx, rng, with_findings=True, namespace=False, no_docstrings=F
     if no_docstrings:
         files = {f: strip_docstrings(t) for f, t in files.items()}
     for f, text in files.items():
-        (d / f).write_text(text)
+        (d / f).write_text(text, encoding="utf-8")
     return root, name, files
 
 
@@ -1134,7 +1195,7 @@ def write_package(ctx, rng, with_findings=True, namespace=False, no_docstrings=F
 def gen_inspectable_source(rng, i, raw_annotations=False):
     out = ['"""Inspected module."""', "import typing", "import os", "from typing import List, Optional"]
     if raw_annotations:
-        # annotation objects whose repr is not a Python expression (C08-F12: generated once the witness no longer reproduces)
+        # annotation objects whose repr is not a Python expression (were stored raw and broke as_json: 4debb62)
         out += ["class Marker:", "    pass", f"def rawann{i}(a: Marker() = None, *b: Marker()) -> Marker():", "    return a"]
     if rng.random() < 0.5:
         out.append("from os.path import join as pjoin")
@@ -1343,7 +1404,7 @@ def stream_packages(ctx, n_visit, n_inspect):
         name = f"c08insp{_counter[0]}_{os.getpid()}"
         root = ctx.scratch / f"insp{_counter[0]}"
         (root / name).mkdir(parents=True)
-        src = gen_inspectable_source(ctx.rng, i, raw_annotations=not _F12_REPRODUCES[0] and i % 2 == 0)
+        src = gen_inspectable_source(ctx.rng, i, raw_annotations=(i % 2 == 0))
         (root / name / "__init__.py").write_text(src)
         (root / name / "other.py").write_text("from . import Base\nclass Other(Base):\n    pass\nZ = 1\n")
         case = {"agent": "inspect", "package": name, "files": {"__init__.py": src}}
@@ -1366,7 +1427,17 @@ def stream_special(ctx):
     import griffe
     root, name, files = write_package(ctx, ctx.rng, with_findings=False, namespace=True)
     obj = griffe.load(name, search_paths=[str(root)], allow_inspection=False)
-    ta, flags = check_tree(ctx, obj, {"agent": "visit", "package": name, "namespace": True, "files": files}, stream="namespace")
+    ta, flags = check_tree(ctx, obj, {"agent": "visit", "package": name, "namespace": True, "files": files}, stream="namespace", every_cwd=True)
+    # a namespace package spread over two directories, and a namespace sub-package below a regular package
+    root2, _, _ = write_package(ctx, ctx.rng, with_findings=False, namespace=True)
+    extra = root2 / name
+    if not extra.exists():
+        (root2 / os.listdir(root2)[0]).rename(extra)
+    (extra / "only_here.py").write_text("Y = 2\n")
+    obj = griffe.load(name, search_paths=[str(root), str(root2)], allow_inspection=False)
+    check_tree(ctx, obj, {"agent": "visit", "package": name, "namespace": True, "portions": 2, "files": files}, stream="namespace/2-portions", every_cwd=True)
+    if not (isinstance(obj.filepath, list) and len(obj.filepath) == 2):
+        ctx.tie_failure("harness", "two namespace portions expected", {"filepath": str(obj.filepath)})
     if not isinstance(obj.filepath, list):
         ctx.tie_failure("harness", "namespace package expected", {"filepath": str(obj.filepath)})
     for mod in ("math", "itertools") if ctx.quick else ("math", "itertools", "_json", "time", "zlib"):
@@ -1394,6 +1465,13 @@ def damage(rng, doc):
             for x in v:
                 walk(x)
     walk(doc)
+    chains = [x for x in dicts if x.get("cls") == "ExprAttribute" and isinstance(x.get("values"), list) and len(x["values"]) > 1]
+    if chains and rng.random() < 0.08:
+        # an element of a dotted chain replaced: the re-linking loop of _load_expression sets `.parent` on whatever follows a name
+        d = rng.choice(chains)
+        i = rng.randrange(1, len(d["values"]))
+        d["values"][i] = rng.choice([{"cls": "ExprYield"}, {"cls": "ExprTuple", "elements": []}, "txt", None, {"cls": "ExprName", "name": "zz"}, True])
+        return f"chain element {i} := {json.dumps(d['values'][i])}"
     d = rng.choice(dicts)
     if not d:
         return None
@@ -1420,9 +1498,19 @@ def damage(rng, doc):
     return f"retype {k}"
 
 
+def corpus_documents():
+    """corpus/C08/*.json: minimised past disagreements between the model's decoder and json_decoder (replayed first)."""
+    d = Path(__file__).resolve().parents[2] / "corpus" / "C08"
+    out = []
+    for f in sorted(d.glob("*.json")) if d.is_dir() else []:
+        c = json.loads(f.read_text())
+        out.append(("corpus " + f.name, c["document"]))
+    return out
+
+
 def stream_damaged(ctx, docs, n):
     import griffe
-    cases = []
+    cases = corpus_documents()
     for _ in range(n):
         text = ctx.rng.choice(docs)
         doc = json.loads(text)
@@ -1544,7 +1632,10 @@ def damage_text(rng, text):
 
 def py_loads_outcome(text):
     try:
-        return ["ok", py_json(text)]
+        term = py_json(text)
+        if any(ord(c) > 255 for c in json.dumps(term, ensure_ascii=False)):
+            return ["outside"]
+        return ["ok", term]
     except Unabstractable:
         return ["outside"]            # floats, code points above U+00FF
     except (json.JSONDecodeError, RecursionError):
@@ -1590,7 +1681,8 @@ def stream_text(ctx, n):
 
 
 def stream_text_documents(ctx, docs, n):
-    """documents damaged at the character level: loads + decode (model) vs json.loads(text, object_hook=json_decoder)."""
+    """documents damaged at the character level: loads_hook (the model reads and calls the decoder on every object as it is
+    closed) vs json.loads(text, object_hook=json_decoder): same value, same JSON error, same exception from the decoder."""
     import griffe
     cases = []
     for _ in range(n):
@@ -1602,6 +1694,21 @@ def stream_text_documents(ctx, docs, n):
     for t, mo in zip(cases, outs):
         ctx.observe("stream", "damaged-text")
         ctx.case({"damaged_text_len": len(t)}, False)
+        # a deleted brace can merge two objects into one with a repeated key: Python keeps the last value, the model's
+        # dicts take the first binding (documents never repeat a key): outside the model
+        repeated = []
+
+        def pairs(ps, repeated=repeated):
+            if len({k for k, _ in ps}) != len(ps):
+                repeated.append(True)
+            return dict(ps)
+        try:
+            json.loads(t, object_pairs_hook=pairs)
+        except Exception:  # noqa: BLE001
+            pass
+        if repeated:
+            ctx.observe("damaged_text_outcome", "repeated key (outside the model)")
+            continue
         try:
             v = json.loads(t, object_hook=griffe.json_decoder)
             if isinstance(v, (griffe.Object, griffe.Alias)):
@@ -1639,9 +1746,10 @@ def stream_subobjects(ctx, n_packages, per_package):
         found = []
 
         def walk(o, path):
+            # aliases are left out: Alias.as_json is a proxy for the target's as_json, not the serialisation of the alias
             for k, m in o.members.items():
-                found.append((path + [k], m))
                 if not m.is_alias:
+                    found.append((path + [k], m))
                     walk(m, path + [k])
         walk(pkg, [])
         ctx.rng.shuffle(found)
@@ -1657,6 +1765,16 @@ def stream_subobjects(ctx, n_packages, per_package):
 
 # ---- trees loaded with a docstring parser (the parsed sections of the full form are parameters of the model)
 def stream_parser(ctx, n):
+    import logging
+    import griffe
+    logging.disable(logging.WARNING)        # the parsers warn about the generated docstrings
+    try:
+        _stream_parser(ctx, n)
+    finally:
+        logging.disable(logging.NOTSET)
+
+
+def _stream_parser(ctx, n):
     import griffe
     for i in range(n):
         root, name, files = write_package(ctx, ctx.rng, with_findings=False)
@@ -1745,7 +1863,7 @@ def alias_features(ctx, obj):
             ctx.observe("alias_kinds", "resolved/chain (final target path differs)")
 
 
-def _cli_expected(ctx, root, names, resolve, full, case, emitted, texts):
+def _cli_expected(ctx, root, names, resolve, full, case, emitted, texts, raw_all=None):
     """what `griffe dump` must have emitted: the serialisation of the tree that the same loader options give."""
     import griffe
     cwd = os.getcwd()
@@ -1756,6 +1874,23 @@ def _cli_expected(ctx, root, names, resolve, full, case, emitted, texts):
             loader.load(nm)
         if resolve:
             loader.resolve_aliases(implicit=False, external=None)
+        # (C) the text itself: the model's dumps_cli (indent=2, sort_keys, trailing newline) of the documents
+        try:
+            docs = {nm: json.loads(loader.modules_collection.members[nm].as_json(full=full)) for nm in loader.modules_collection.members}
+            if raw_all is not None and sorted(docs) == sorted(names):
+                mt = ctx.model([["dumps-cli", to_term(docs)]])[0]
+                ctx.count("cli_text_cases")
+                if mt != raw_all:
+                    ctx.tie_failure("correspondence", "dumps_cli(model, text) vs the text `griffe dump` printed", _first_text_diff(mt, raw_all), case)
+            for nm in texts:
+                mt = ctx.model([["dumps-cli", to_term(docs[nm])]])[0]
+                ctx.count("cli_text_cases")
+                if mt != texts[nm]:
+                    ctx.tie_failure("correspondence", "dumps_cli(model, text) vs the per-package file `griffe dump` wrote", _first_text_diff(mt, texts[nm]), case)
+        except Unabstractable:
+            pass
+        except Exception:  # noqa: BLE001   (as_json failing is reported below)
+            pass
         for nm in names:
             pkg = loader.modules_collection.members[nm]
             alias_features(ctx, pkg)
@@ -1842,7 +1977,7 @@ def check_cli(ctx, n, n_inproc):
         if rc != 0:
             ctx.property_failure(dict(case, step="exit status"), {"returncode": rc, "stdout": stdout[:200], "stderr": stderr[-400:]})
             ctx.observe("outcome", "cli:nonzero-exit")
-        emitted, texts = {}, {}
+        emitted, texts, raw_all = {}, {}, None
         try:
             if per_package:
                 for nm in names:
@@ -1851,8 +1986,10 @@ def check_cli(ctx, n, n_inproc):
                         texts[nm] = f.read_text()
                         emitted[nm] = json.loads(texts[nm])
             elif to_file:
-                emitted = json.loads((outdir / "all.json").read_text())
+                raw_all = (outdir / "all.json").read_text()
+                emitted = json.loads(raw_all)
             else:
+                raw_all = stdout
                 emitted = json.loads(stdout)
         except Exception as e:  # noqa: BLE001
             ctx.property_failure(dict(case, step="output is not JSON"), {"error": str(e)[:200], "stdout": stdout[:200]})
@@ -1861,7 +1998,7 @@ def check_cli(ctx, n, n_inproc):
             ctx.property_failure(dict(case, step="emitted packages"), {"emitted": sorted(emitted), "requested": sorted(names), "returncode": rc})
             ctx.observe("outcome", "cli:wrong-packages")
             continue
-        _cli_expected(ctx, root, names, resolve, full, case, emitted, texts)
+        _cli_expected(ctx, root, names, resolve, full, case, emitted, texts, raw_all)
 
 
 def _first_py_diff(a, b, path="$"):
@@ -1927,7 +2064,6 @@ def fixed_cases(ctx):
             ctx.property_failure({"fixed_case": what}, {"old": str(mod._filepath), "new": str(r[1]._filepath)})
 
 
-_F12_REPRODUCES = [True]
 
 
 def load_inspected(ctx, name, src):
@@ -1949,14 +2085,15 @@ def witnesses(ctx):
     import griffe
     V = lambda code: griffe.visit("w", filepath=Path("/x/w.py"), code=code)
     ctx.witness("C08-F4", _rt(griffe.Module("w", filepath=None), full=True) == ("enc", "BuiltinModuleError"))
-    # F12: an inspected annotation object whose repr is not Python is stored as the object itself: as_json raises TypeError
+    # repaired (4debb62, was C08-F12): an inspected annotation object whose repr is not Python is kept as that text;
+    # it used to be stored as the object itself and as_json raised TypeError.  Must pass now.
     mod = load_inspected(ctx, f"c08raw_{os.getpid()}", "class Marker:\n    pass\ndef f(a: Marker() = None) -> Marker():\n    return a\n")
     ann = mod.members["f"].parameters["a"].annotation
     r12 = _rt(mod)
-    _F12_REPRODUCES[0] = (not isinstance(ann, (str, griffe.Expr))) and r12 == ("enc", "TypeError")
-    ctx.witness("C08-F12", _F12_REPRODUCES[0])
-    if not _F12_REPRODUCES[0] and r12[0] != "same":
-        ctx.property_failure({"fixed_case": "F12 inspected annotation object without a Python repr", "mode": "min"}, {"outcome": r12[0]})
+    ctx.case({"fixed_case": "F12 inspected annotation object without a Python repr"}, True)
+    if not isinstance(ann, (str, griffe.Expr)) or r12[0] != "same":
+        ctx.property_failure({"fixed_case": "F12 inspected annotation object without a Python repr", "mode": "min", "source": "def f(a: Marker() = None) -> Marker(): ..."},
+                             {"annotation type": type(ann).__name__, "outcome": r12[0], "detail": r12[1] if isinstance(r12[1], str) else None})
     # F13: the full form of a namespace package none of whose directories lies below the working directory
     home = os.getcwd()
     os.chdir("/usr")
@@ -1975,20 +2112,43 @@ def witnesses(ctx):
         if r[0] != "same":
             return None
         return ([canon(n) for n, _ in names_of(get(mod), [])], [canon(n) for n, _ in names_of(get(r[1]), [])])
-    ctx.witness("C08-F8", cps("def f(a: Optional[List[Foo]]): ...\n", lambda m: m.members["f"].parameters["a"].annotation)
-                == (["typing.Optional", "typing.List", "w.Foo"], ["typing.Optional", "List", "Foo"]))
-    ctx.witness("C08-F9", cps("class C(Foo): ...\nx: Foo = 1\n", lambda m: [m.members["C"].bases[0], m.members["x"].annotation])
-                == (["w.Foo", "w.Foo"], ["Foo", "Foo"]))
-    ctx.witness("C08-F10", cps("def f(a=osp.join): ...\n", lambda m: m.members["f"].parameters["a"].default)
-                == (["os.path", "os.path.join"], ["os.path", "join"]))
     ctx.witness("C08-F11", cps("class C:\n    def __init__(self, p):\n        self.x = p\n", lambda m: m.members["C"].members["x"].value)
                 == (["w.C(p)"], ["p"]))
+
+
+FIXED_LINKS = [   # (what, code, slot getter, canonical paths that must come back)
+    ("F8 names below the first layer", "def f(a: Optional[List[Foo]]): ...\n", lambda m: m.members["f"].parameters["a"].annotation,
+     ["typing.Optional", "typing.List", "w.Foo"]),
+    ("F9 class bases and attribute annotations", "class C(Foo): ...\nx: Foo = 1\n", lambda m: [m.members["C"].bases[0], m.members["x"].annotation],
+     ["w.Foo", "w.Foo"]),
+    ("F10 dotted name as a whole slot", "def f(a=osp.join): ...\n", lambda m: m.members["f"].parameters["a"].default, ["os.path", "os.path.join"]),
+    ("F11 attribute of a string literal", "x = 'sep'.join\n", lambda m: m.members["x"].value, ["str.join"]),
+    ("F8 keyword function, lambda default, comprehension", "x = hh(k=[Foo for i in osp if (lambda q=Foo: q)])\nhh = 1\n", lambda m: m.members["x"].value, None),
+]
+
+
+def fixed_link_cases(ctx):
+    """witnesses of the repaired link defects (8c597ee, 5995d8a, bc5643e, 47f36fc): every name resolves as before the dump."""
+    import griffe
+    for what, code, get, want in FIXED_LINKS:
+        ctx.case({"fixed_case": what}, True)
+        ctx.observe("stream", "fixed-cases")
+        mod = griffe.visit("w", filepath=Path("/x/w.py"), code="import typing\nfrom typing import List, Optional\nimport os.path as osp\nclass Foo: ...\n" + code)
+        r = _rt(mod)
+        if r[0] != "same":
+            ctx.property_failure({"fixed_case": what, "mode": "min"}, {"outcome": r[0]})
+            continue
+        before = [canon(n) for n, _ in names_of(get(mod), [])]
+        after = [canon(n) for n, _ in names_of(get(r[1]), [])]
+        if before != after or (want is not None and before != want):
+            ctx.property_failure({"fixed_case": what, "code": code}, {"canonical paths before": before, "after reload": after, "expected": want})
 
 
 def explore(ctx):
     os.makedirs(ctx.scratch, exist_ok=True)
     witnesses(ctx)
     fixed_cases(ctx)
+    fixed_link_cases(ctx)
     stream_clean(ctx, ctx.budget(400, 4000))
     stream_paths(ctx, ctx.budget(400, 4000))
     stream_text(ctx, ctx.budget(400, 4000))
@@ -2097,7 +2257,7 @@ def replay(ctx, data):
         for f, text in files.items():
             p = root / case["package"] / f
             p.parent.mkdir(parents=True, exist_ok=True)
-            p.write_text(text)
+            p.write_text(text, encoding="utf-8")
         obj = griffe.load(case["package"], search_paths=[str(root)], resolve_aliases=bool(case.get("resolve_aliases")),
                           resolve_implicit=bool(case.get("resolve_implicit")), allow_inspection=False)
         for full in (False, True):
